@@ -1,6 +1,7 @@
 import JominiModel.Model.Scalar
 import JominiModel.Spec.Scalar
 import JominiModel.Proofs.Scalar
+import JominiModel.Proofs.ScalarCross
 import JominiModel.Generated.Tables
 /-
 C11 — Scalar numeric and boolean conversions are exact or refuse.
@@ -348,5 +349,86 @@ first-guess exponent or one more, and `|num/den − q·2^e| ≤ 2^e / 2` (half a
 subtraction or division occurs).  Ties-to-even among the two candidates at exactly half an ulp is not characterised
 separately (it is the definition's choice and is tied to the hardware by the correspondence on boundary inputs). -/
 theorem C11_rne_within_half_ulp : type_of% @rneBits_half_ulp := @rneBits_half_ulp
+
+/-! ### consistency between the conversions of one scalar
+
+What a caller sees when the target type of a field changes (read as `u64` today, as `i64`
+or `f64` tomorrow): the conversions parse the same digits with the same loop, so they agree
+wherever both succeed, and the boundaries at which one refuses are exactly the ones below. -/
+
+/-- **to_u64 then to_i64** (the general form): on a string `to_u64` converts to `v`, `to_i64`
+returns the same `v` when `v ≤ i64::MAX = 2^63-1` and `Overflow` otherwise — nothing else
+(sign, `+`, leading zeros, the bare `"+"`) matters. -/
+theorem C11_u64_then_i64_total (s : Bytes) (v : Nat) (h : toU64 s = .ok v) :
+    toI64 s = if v ≤ 2 ^ 63 - 1 then .ok (v : Int) else .error .overflow :=
+  toU64_then_toI64 s v h
+
+/-- **to_u64 then to_i64**: a value below `2^63` read as `u64` reads as the same `i64`. -/
+theorem C11_u64_then_i64 (s : Bytes) (v : Nat) (h : toU64 s = .ok v) (hv : v < 2 ^ 63) :
+    toI64 s = .ok (v : Int) := by
+  rw [toU64_then_toI64 s v h, if_pos (by omega)]
+
+example : toU64 [43, 48, 48, 55] = .ok 7 ∧ toI64 [43, 48, 48, 55] = .ok 7 := ⟨rfl, rfl⟩
+-- the bound is needed: "9223372036854775808" = 2^63 is a u64 and not an i64
+example : toU64 [57,50,50,51,51,55,50,48,51,54,56,53,52,55,55,53,56,48,56] = .ok (2 ^ 63) ∧
+    toI64 [57,50,50,51,51,55,50,48,51,54,56,53,52,55,55,53,56,48,56] = .error .overflow := ⟨rfl, rfl⟩
+
+/-- **to_i64 then to_u64**: the exact boundary is the FIRST BYTE, not the sign of the value.
+On a string `to_i64` converts to `v`: if it does not start with `-` then `v ≥ 0` and `to_u64`
+returns the same value; if it starts with `-` then `to_u64` refuses with `AllDigits` — also
+for `"-0"`, `"-00"` and the bare `"-"`, which `to_i64` converts to `0`.  So `0 ≤ v` alone is
+NOT a sufficient hypothesis (see the refuting example below). -/
+theorem C11_i64_then_u64_total (s : Bytes) (v : Int) (h : toI64 s = .ok v) :
+    (s.head? ≠ some 45 → 0 ≤ v ∧ toU64 s = .ok v.toNat) ∧
+    (s.head? = some 45 → v ≤ 0 ∧ toU64 s = .error .allDigits) :=
+  toI64_then_toU64 s v h
+
+/-- **to_i64 then to_u64**, in the form asked for (the hypothesis `0 ≤ v` is implied by the
+other two and is kept only for readability). -/
+theorem C11_i64_then_u64 (s : Bytes) (v : Int) (h : toI64 s = .ok v) (_ : 0 ≤ v)
+    (hs : s.head? ≠ some 45) : toU64 s = .ok v.toNat :=
+  ((toI64_then_toU64 s v h).1 hs).2
+
+/-- the same as an iff: after `to_i64` succeeded, `to_u64` succeeds (with the same value)
+exactly when the string does not start with `-`. -/
+theorem C11_i64_then_u64_iff (s : Bytes) (v : Int) (h : toI64 s = .ok v) :
+    toU64 s = .ok v.toNat ↔ s.head? ≠ some 45 := by
+  constructor
+  · exact toU64_ok_head s _
+  · exact fun hs => ((toI64_then_toU64 s v h).1 hs).2
+
+example : toI64 [43, 48, 48, 55] = .ok 7 ∧ toU64 [43, 48, 48, 55] = .ok 7 := ⟨rfl, rfl⟩
+-- the first-byte hypothesis is needed: "-0" is the i64 0 (so `0 ≤ v`) and is not a u64
+example : toI64 [45, 48] = .ok 0 ∧ toU64 [45, 48] = .error .allDigits := ⟨rfl, rfl⟩
+
+/-- **to_u64 then to_f64** (the general form): on a string `to_u64` converts to `v`, `to_f64`
+returns `v as f64` when `v ≤ 2^53-1` and `PrecisionLoss` otherwise.  A leading `+`, leading
+zeros and the bare `"+"` are treated identically by both conversions (no side condition). -/
+theorem C11_u64_then_f64_total (s : Bytes) (v : Nat) (h : toU64 s = .ok v) :
+    toF64 s = if v ≤ 2 ^ 53 - 1 then .ok (u64ToF64 v) else .error .precisionLoss :=
+  toU64_then_toF64 s v h
+
+/-- **to_u64 then to_f64**: a value below `2^53` read as `u64` reads as the `f64` that holds
+exactly that value (`decodeMag` is the exact integer value of the bit pattern). -/
+theorem C11_u64_then_f64 (s : Bytes) (v : Nat) (h : toU64 s = .ok v) (hv : v < 2 ^ 53) :
+    toF64 s = .ok (u64ToF64 v) ∧ decodeMag (u64ToF64 v) = v := by
+  rw [toU64_then_toF64 s v h, if_pos (by omega)]
+  exact ⟨rfl, u64ToF64_exact v hv⟩
+
+-- "+007" is 7 = 7.0 = 0x401C000000000000
+example : toU64 [43, 48, 48, 55] = .ok 7 ∧ toF64 [43, 48, 48, 55] = .ok 0x401C000000000000 ∧
+    u64ToF64 7 = 0x401C000000000000 := ⟨rfl, rfl, rfl⟩
+-- the bound is needed: "9007199254740992" = 2^53 is a u64 and is refused by to_f64
+example : toU64 [57,48,48,55,49,57,57,50,53,52,55,52,48,57,57,50] = .ok (2 ^ 53) ∧
+    toF64 [57,48,48,55,49,57,57,50,53,52,55,52,48,57,57,50] = .error .precisionLoss := ⟨rfl, rfl⟩
+
+/-- **a boolean is not a number**: the two strings `to_bool` accepts (`"yes"`, `"no"`) are
+refused — with `AllDigits` — by `to_u64`, `to_i64` and `to_f64`. -/
+theorem C11_bool_not_number (s : Bytes) (h : ∃ b, toBool s = .ok b) :
+    toU64 s = .error .allDigits ∧ toI64 s = .error .allDigits ∧ toF64 s = .error .allDigits :=
+  toBool_ok_not_number s h
+
+example : toBool [110, 111] = .ok false ∧ toU64 [110, 111] = .error .allDigits ∧
+    toF64 [110, 111] = .error .allDigits := ⟨rfl, rfl, rfl⟩
 
 end Jomini.Props.C11
